@@ -100,7 +100,7 @@ def gsvd(a):
     return dict(singular_values=_arr(est.singular_values_), left=_arr(est.singular_vectors_left_),
                 right=_arr(est.singular_vectors_right_), embedding=_arr(est.embedding_),
                 embedding_row=_arr(est.embedding_row_), embedding_col=_arr(est.embedding_col_),
-                weights_col=_arr(est.weights_col_), predict=pred, predict_all=pred_all,
+                weights_col=_arr(est.weights_col_), mean_col=_arr(getattr(est, 'mean_col_', None)), predict=pred, predict_all=pred_all,
                 solver=_captured.get('svd'))
 
 
